@@ -1,4 +1,6 @@
 import PsVerif.Base
+import PsVerif.Props.C06
 import PsVerif.Props.C24
 import PsVerif.Props.C27
 import PsVerif.Props.C30
+import PsVerif.Findings.C06
